@@ -52,7 +52,8 @@ def run(tier, seed):
         assumptions=kc.COMMON_ASSUMPTIONS, rule=RULE, needed_events=NEEDED,
         mc_cfgs=(['MC_Krill_q_roll.cfg', 'MC_Krill_q_taroll.cfg'] if tier == "quick" else ['MC_Krill_q_roll.cfg', 'MC_Krill_q_taroll.cfg', 'MC_Krill_q_multi.cfg', 'MC_Krill_roll.cfg']),
         directed=(DIRECTED + kc.MULTI_DIRECTED[1:]
-                  + kc.clause("roll-interleaved", "roll-parent-and-child")
+                  + kc.clause("roll-interleaved", "roll-parent-and-child",
+                              "roll-new-key-covers-more")
                   + kc.TA_DIRECTED),
         theme_nums={"multi": (8, 80), "mix": (6, 60), "taroll": (8, 80)})
 
